@@ -24,7 +24,9 @@ fn do_cli_disc(ctx: &mut Ctx, f: &[BigInt]) {
     if f.is_empty() {
         v = match v { 1 | 2 => 0, 5 => 3, x => x };
     }
-    let cfg = format!("to_find = ['discriminant']\n[input]\npolynomials = {}\n", toml_polys(&[f], v));
+    // `resultant` needs two polynomials: only when the configuration lists a second one (variants 3, 4, 5)
+    let before: &[&str] = if v >= 3 { &["resultant", "factorization-mod-p"] } else { &["factorization-mod-p", "prime-decomposition"] };
+    let cfg = format!("to_find = {}\n[input]\npolynomials = {}\n", to_find_list("discriminant", before, v), toml_polys(&[f], v));
     if let Some(out) = run_cli(&cfg) {
         let ans = if out.starts_with("panic") { out } else { json_field(&out, "discriminant").unwrap_or_else(|| "noanswer".into()) };
         ctx.emit("cli.disc", &[show_ints(f)], ans);
